@@ -719,6 +719,50 @@ v('C18 C05 C19', 'fire', T, ['    lla = np.asarray(lla, dtype=float)\n    dr_n =
   'round-6 seed C18: perturb_lla perturbs a writeable float array in place')
 v('C18', 'silent', T, ['    lla = np.asarray(lla, dtype=float)\n    dr_n = np.asarray(dr_n)\n'],
   ["    lla = np.require(lla, dtype=float)\n    dr_n = np.asarray(dr_n)\n"], 'np.require followed by the copy')
+# round-6 seeds C15 (boundary row), C16 (batch collapsed onto its first sample), C17 (pole of the
+# closed form at a half turn), C19 (parameter-table labels transposed)
+_CS_OLD = ("        coning = np.cross(gyro[:-1], gyro[1:]) / 12\n"
+           "        sculling = (np.cross(gyro[:-1], accel[1:]) +\n"
+           "                    np.cross(accel[:-1], gyro[1:])) / 12\n")
+v('C15', 'fire', S, _CS_OLD,
+  "        gyro_previous = np.vstack((gyro[1:2], gyro[1:-1]))\n"
+  "        accel_previous = np.vstack((accel[1:2], accel[1:-1]))\n"
+  "        coning = np.cross(gyro_previous, gyro_increment) / 12\n"
+  "        sculling = (np.cross(gyro_previous, accel_increment) +\n"
+  "                    np.cross(accel_previous, gyro_increment)) / 12\n",
+  'round-6 seed C15: the before-sample is ignored, row 0 pairs the first increment with itself')
+v('C15', 'silent', S, _CS_OLD,
+  "        gyro_previous = np.vstack((gyro[0:1], gyro[1:-1]))\n"
+  "        accel_previous = np.vstack((accel[:1], accel[1:-1]))\n"
+  "        coning = np.cross(gyro_previous, gyro_increment) / 12\n"
+  "        sculling = (np.cross(gyro_previous, accel_increment) +\n"
+  "                    np.cross(accel_previous, gyro_increment)) / 12\n",
+  'the same rows, stacked from two pieces')
+v('C16 C04', 'fire', 'earth.py', 'result[:, 2, 1] = -result[:, 0, 1] * np.tan(np.deg2rad(lat))',
+  'result[:, 2, 1] = -result[0, 0, 1] * np.tan(np.deg2rad(lat))', 'round-6 seed C16: 1/re of the first sample for the whole batch')
+v('C17 C01', 'fire', K, '        k2 = (1 - np.cos(norm)) / norm2\n', '        k2 = k1 * k1 / (1 + cos)\n',
+  'round-6 seed C17: identity with a pole at |rv| = pi')
+v('C17', 'fire', K, '        k1 = np.sin(norm) / norm\n', '        k1 = np.tan(norm) * cos / norm\n', 'identity with poles at odd multiples of pi/2')
+v('C17', 'silent', K, '        k2 = (1 - np.cos(norm)) / norm2\n', '        k2 = 2 * np.sin(0.5 * norm) ** 2 / norm2\n', 'half-angle form, no pole')
+_SMT_OLD = ("        for axis_out in range(3):\n"
+            "            for axis_in in range(3):\n"
+            "                nominal = 1 if axis_out == axis_in else 0\n"
+            "                actual = self.transform[axis_out, axis_in]\n"
+            "                if actual != nominal:\n"
+            "                    self.data_frame[(f\"sm_{INDEX_TO_XYZ[axis_out]}\"\n"
+            "                                    f\"{INDEX_TO_XYZ[axis_in]}\")] = actual - nominal\n")
+v('C19 C14', 'fire', IS, _SMT_OLD,
+  "        scale_misal = self.transform - np.identity(3)\n"
+  "        for axis_in, axis_out in zip(*np.nonzero(scale_misal)):\n"
+  "            name = f\"sm_{INDEX_TO_XYZ[axis_out]}{INDEX_TO_XYZ[axis_in]}\"\n"
+  "            self.data_frame[name] = scale_misal[axis_in, axis_out]\n",
+  'round-6 seed C19: (row, column) of np.nonzero unpacked as (in, out)')
+v('C19 C14', 'silent', IS, _SMT_OLD,
+  "        scale_misal = self.transform - np.identity(3)\n"
+  "        for axis_out, axis_in in zip(*np.nonzero(scale_misal)):\n"
+  "            name = f\"sm_{INDEX_TO_XYZ[axis_out]}{INDEX_TO_XYZ[axis_in]}\"\n"
+  "            self.data_frame[name] = scale_misal[axis_out, axis_in]\n",
+  'the same table through np.nonzero')
 # COL-BYNAME on row kinds (round-6 seed C05; F8)
 v('C04 C05 C11', 'fire', 'error_model.py', 'pva_error[TRAJECTORY_ERROR_COLS].values)', 'pva_error.values)', 'F8 repair reverted')
 v('C05 C18', 'fire', 'sim.py',
